@@ -6,7 +6,7 @@ from checks.common import CheckResult, VERIF, standard_flow
 C = lambda *fs: [os.path.join(VERIF, "contracts", f) for f in fs]  # noqa: E731
 FILES = C("node_port.py", "refuse.py")
 TARGETS = ["hugr.ops._CallOrLoad.__init__", "hugr.ops._check_complete", "hugr.build.cond_loop.Conditional.add_case", "hugr.build.cond_loop.Conditional.__exit__",
-           "hugr.build.cond_loop.Conditional._update_outputs", "hugr.build.dfg.Function.set_outputs", "hugr.build.cfg.Cfg.branch_exit"]
+           "hugr.build.cond_loop.Conditional._update_outputs", "hugr.build.dfg.Function.set_outputs", "hugr.build.cfg.Cfg.branch_exit", "hugr.build.cond_loop.Case.set_outputs"]
 TRACKED = (C("tracked.py", "node_port.py"), ["hugr.build.tracked_dfg.TrackedDfg.tracked_wire", "hugr.build.tracked_dfg.TrackedDfg.untrack_wire"])
 # incomplete operations: every signature accessor raises IncompleteOp exactly when its row is not set (contracts shared with C06)
 OPS = (C("node_port.py", "tys.py", "ops.py"), ["hugr.ops.Output.outer_signature", "hugr.ops.DFG.outer_signature", "hugr.ops.DFG.inner_signature", "hugr.ops.CFG.outer_signature",
@@ -28,7 +28,7 @@ def run(tier, seed):
                        "was repaired) or an already built case, leaving the builder unchanged; Conditional.__exit__ raises exactly when a case is unbuilt; _check_complete and the signature accessors of "
                        "Output / DFG / CFG / Conditional / MakeTuple / UnpackTuple raise IncompleteOp exactly when the row is not set; TrackedDfg.tracked_wire / untrack_wire raise IndexError exactly "
                        "for untracked indices; Conditional._update_outputs raises ConditionalError exactly when a row has been established (an empty row counts) and the case's row differs, recording nothing, and otherwise "
-                       "establishes / keeps the row; Function.set_outputs raises ValueError whenever outputs are declared and the row of the wires' types differs from the declaration in length or at some position, "
+                       "establishes / keeps the row - and Case.set_outputs hands it exactly the row of its wires' types, so a case whose outputs disagree is refused at set_outputs; Function.set_outputs raises ValueError whenever outputs are declared and the row of the wires' types differs from the declaration in length or at some position, "
                        "and never changes the declaration; Cfg.branch_exit raises MismatchedExit exactly when an exit row has been established and the branching block's successor row differs from it (leaving the exit row as it was), "
                        "and the first branch establishes the exit row and the CFG's outputs. The remaining refusals are decided by 78 enumerated one-inconsistency programs (each with a consistent control) - bounded; hence category other.")
     return res.finish()
